@@ -141,16 +141,36 @@ impl TransportReader {
         &mut self,
         master_address: Option<EndpointAddress>,
     ) -> RequestGuard<'_> {
-        if let Some(TransportRequest::Request(info, _)) = self.peek_request() {
-            if let Some(required_master_addr) = master_address {
-                if info.addr.link != required_master_addr {
-                    tracing::warn!(
-                        "Discarding ASDU from master address: {} (configured address == {})",
-                        info.addr.link.raw_value(),
-                        required_master_addr.raw_value()
-                    );
-                    self.pop();
-                }
+        // was the pending fragment (if any) received via a broadcast address?
+        let broadcast = matches!(
+            self.inner.peek(),
+            Some(TransportData::Fragment(fragment)) if fragment.info.broadcast.is_some()
+        );
+
+        // the source of the pending fragment, whether it is a valid request or not
+        let (source, malformed) = match self.peek_request() {
+            Some(TransportRequest::Request(info, _)) => (Some(info.addr.link), false),
+            Some(TransportRequest::Error(addr, _)) => (Some(addr.link), true),
+            _ => (None, false),
+        };
+
+        if let Some(source) = source {
+            let other_master = match master_address {
+                Some(required_master_addr) => source != required_master_addr,
+                None => false,
+            };
+
+            if other_master {
+                tracing::warn!(
+                    "Discarding ASDU from master address: {} (configured address == {:?})",
+                    source.raw_value(),
+                    master_address.map(|x| x.raw_value())
+                );
+                self.pop();
+            } else if malformed && broadcast {
+                // broadcasts are never answered, so there is nobody to report the error to
+                tracing::warn!("Discarding malformed broadcast ASDU");
+                self.pop();
             }
         }
         RequestGuard::new(self)
